@@ -9,6 +9,7 @@
   `Get` take the closed fact `exEntryParses` ("the example entry parses", an instance of C05's `parse_fmt`) as a hypothesis.
 -/
 import GIV.Lemmas.CacheTrim
+import GIV.Lemmas.CacheTrimRange
 import GIV.Lemmas.CacheOps
 import GIV.Lemmas.CacheWitness
 
@@ -84,7 +85,8 @@ theorem trim_of_due (fs : FS) (now : Int) (hn0 : 0 ≤ now) (h : trimNotDue fs n
 /-- In every other case the trim is due — `trim.txt` missing, unparseable, a day or more old, an hour or more in the
 future — and then the sweep runs and the Unix time `now` is recorded.
 (The old / future cases are stated for `|t| < 2^62`; beyond that `time.Unix` wraps, which the model follows but the
-statement does not describe.) -/
+statement does not describe — `trim_due_all_records` below does, for every int64 `t`; `trim_due_otherwise_corollary`
+re-derives this theorem from it.) -/
 theorem trim_due_otherwise (fs : FS) (now : Int) (hn0 : 0 ≤ now)
     (hdue : fs.get trimTxt = none ∨
       (∃ f, fs.get trimTxt = some f ∧ parseInt 10 64 (trimSpace f.data) = none) ∨
@@ -113,6 +115,167 @@ example : (trim FS.empty (10 * day)).get trimTxt = some ⟨[56, 54, 52, 48, 48, 
     have : (10 * day / second).toNat = 864000 := by decide
     rw [this]; simp [decimal]
   rw [this]
+
+/-! ### the decision for every record that can stand in `trim.txt`
+
+`t` is whatever `ParseInt(…, 10, 64)` returns: any int64.  `time.Unix(t, 0)` wraps (in seconds since year 1) from
+`firstWrapped = 2^63 - 62135596800` on; `now.Sub(lastTrim)` saturates at `±2^63` ns.  `notDueSpec`
+(GIV.Lemmas.CacheTrimRange) is that computation in plain integer arithmetic with literal numbers. -/
+
+/-- every record is an int64. -/
+theorem record_is_int64 (fs : FS) (t : Int) (hrec : lastTrimIs fs t) : -(2 ^ 63) ≤ t ∧ t < 2 ^ 63 := by
+  obtain ⟨f, _, hp⟩ := hrec
+  exact parseInt64_range 10 _ t hp
+
+example : lastTrimIs exRecent 781200 ∧ -(2 ^ 63) ≤ (781200 : Int) ∧ (781200 : Int) < 2 ^ 63 :=
+  ⟨⟨_, FS.get_set_self _ _ _, by decide⟩, by decide, by decide⟩
+
+/-- The model's due test is the integer specification `notDueSpec` (explicit wrap of `time.Unix`, explicit saturation
+of `Sub`, literal 24 h and 1 h) — for all `t` and all `now`, the wrapping and saturating regions included. -/
+theorem trimNotDue_is_spec (fs : FS) (now t : Int) (hrec : lastTrimIs fs t) : trimNotDue fs now = notDueSpec t now := by
+  obtain ⟨f, hf, hp⟩ := hrec
+  exact trimNotDue_eq_spec fs now t f (by rw [durations.2.2.2.1]; exact hf)
+    (by rw [durations.2.2.2.2.2.1, durations.2.2.2.2.2.2]; exact hp)
+
+example : trimNotDue exRecent (10 * day) = notDueSpec 781200 (10 * day) :=
+  trimNotDue_is_spec _ _ _ ⟨_, FS.get_set_self _ _ _, by decide⟩
+
+/-- **The decision for EVERY int64 record** (no `|t| < 2^62` restriction; `-2^63 ≤ t < 2^63` is not even a hypothesis:
+it follows from `lastTrimIs`, theorem `record_is_int64`).  For every `now` in `[0, 2^63)` ns:
+Trim decides "not due" exactly when the record is less than a day in the past and less than an hour in the future,
+the difference `now - t·10⁹` taken in unbounded integers; then nothing at all happens.  In every other case — the
+region where `t·10⁹` overflows, the region where `Sub` saturates and the region where `time.Unix` wraps included —
+the sweep runs and the record is rewritten. -/
+theorem trim_due_all_records (fs : FS) (now t : Int) (hn0 : 0 ≤ now) (hn1 : now < 2 ^ 63) (hrec : lastTrimIs fs t) :
+    (trimNotDue fs now = true ↔ (-hour < now - t * second ∧ now - t * second < day)) ∧
+    ((-hour < now - t * second ∧ now - t * second < day) → trim fs now = fs) ∧
+    (¬ (-hour < now - t * second ∧ now - t * second < day) →
+      trim fs now = dueResult fs now ∧ (trim fs now).get trimTxt = some ⟨decimal (now / second).toNat, now⟩) := by
+  obtain ⟨ht0, ht1⟩ := record_is_int64 fs t hrec
+  have hiff : trimNotDue fs now = true ↔ (-hour < now - t * second ∧ now - t * second < day) := by
+    rw [trimNotDue_is_spec fs now t hrec, notDueSpec_closed t now ht0 ht1 hn0 hn1]
+    simp only [hour, day, second]
+    omega
+  refine ⟨hiff, ?_, ?_⟩
+  · intro h
+    simp [trim, hiff.mpr h]
+  · intro h
+    have hnd : trimNotDue fs now = false := by
+      cases hc : trimNotDue fs now with
+      | false => rfl
+      | true => exact absurd (hiff.mp hc) h
+    have := trim_of_due fs now hn0 hnd
+    exact ⟨this, by rw [this, dueResult, FS.get_set_self]⟩
+
+/-- a record in the wrap region of `time.Unix`: `MaxInt64`. -/
+def exMaxRecord : FS :=
+  FS.empty.set trimTxt ⟨[57, 50, 50, 51, 51, 55, 50, 48, 51, 54, 56, 53, 52, 55, 55, 53, 56, 48, 55], 0⟩   -- "9223372036854775807"
+
+example : lastTrimIs exMaxRecord (2 ^ 63 - 1) := ⟨_, FS.get_set_self _ _ _, by decide⟩
+
+/-- both sides of `trim_due_all_records` occur: the recent record is not due, `MaxInt64` is due (and rewritten). -/
+example : trim exRecent (10 * day) = exRecent ∧
+    (trim exMaxRecord (10 * day)).get trimTxt = some ⟨decimal (10 * day / second).toNat, 10 * day⟩ :=
+  ⟨(trim_due_all_records exRecent (10 * day) 781200 (by decide) (by decide) ⟨_, FS.get_set_self _ _ _, by decide⟩).2.1
+      (by decide),
+   ((trim_due_all_records exMaxRecord (10 * day) (2 ^ 63 - 1) (by decide) (by decide) ⟨_, FS.get_set_self _ _ _, by decide⟩).2.2
+      (by decide)).2⟩
+
+/-- (i) `trim_due_otherwise` is the special case `|t| < 2^62` (plus the missing / corrupt record): its third
+alternative is the negation of the closed form. -/
+theorem trim_due_otherwise_from_all (fs : FS) (now : Int) (hn0 : 0 ≤ now) (hn1 : now < 2 ^ 63)
+    (hdue : fs.get trimTxt = none ∨
+      (∃ f, fs.get trimTxt = some f ∧ parseInt 10 64 (trimSpace f.data) = none) ∨
+      (∃ t, lastTrimIs fs t ∧ (day ≤ now - t * second ∨ now - t * second ≤ -hour))) :
+    trim fs now = dueResult fs now ∧
+    (trim fs now).get trimTxt = some ⟨decimal (now / second).toNat, now⟩ := by
+  rcases hdue with h | ⟨f, hf, hp⟩ | ⟨t, hrec, hd⟩
+  · have hnd := trimNotDue_missing fs now (by rw [durations.2.2.2.1]; exact h)
+    have := trim_of_due fs now hn0 hnd
+    exact ⟨this, by rw [this, dueResult, FS.get_set_self]⟩
+  · have hnd := trimNotDue_corrupt fs now f (by rw [durations.2.2.2.1]; exact hf)
+      (by rw [durations.2.2.2.2.2.1, durations.2.2.2.2.2.2]; exact hp)
+    have := trim_of_due fs now hn0 hnd
+    exact ⟨this, by rw [this, dueResult, FS.get_set_self]⟩
+  · exact (trim_due_all_records fs now t hn0 hn1 hrec).2.2 (by omega)
+
+example : (trim exMaxRecord (10 * day)).get trimTxt = some ⟨decimal (10 * day / second).toNat, 10 * day⟩ :=
+  (trim_due_otherwise_from_all exMaxRecord (10 * day) (by decide) (by decide)
+    (Or.inr (Or.inr ⟨2 ^ 63 - 1, ⟨_, FS.get_set_self _ _ _, by decide⟩, Or.inr (by decide)⟩))).2
+
+/-- … and with exactly the statement of `trim_due_otherwise` (every `now ≥ 0`, `|t| < 2^62`), now a corollary of the
+real-time form `trim_due_real_time` below the wrap region. -/
+theorem trim_due_otherwise_corollary (fs : FS) (now : Int) (hn0 : 0 ≤ now)
+    (hdue : fs.get trimTxt = none ∨
+      (∃ f, fs.get trimTxt = some f ∧ parseInt 10 64 (trimSpace f.data) = none) ∨
+      (∃ t, lastTrimIs fs t ∧ -(2 ^ 62) ≤ t ∧ t < 2 ^ 62 ∧ (day ≤ now - t * second ∨ now - t * second ≤ -hour))) :
+    trim fs now = dueResult fs now ∧
+    (trim fs now).get trimTxt = some ⟨decimal (now / second).toNat, now⟩ := by
+  have fin : trimNotDue fs now = false → trim fs now = dueResult fs now ∧
+      (trim fs now).get trimTxt = some ⟨decimal (now / second).toNat, now⟩ := fun hnd => by
+    have := trim_of_due fs now hn0 hnd
+    exact ⟨this, by rw [this, dueResult, FS.get_set_self]⟩
+  rcases hdue with h | ⟨f, hf, hp⟩ | ⟨t, hrec, _, ht1, hd⟩
+  · exact fin (trimNotDue_missing fs now (by rw [durations.2.2.2.1]; exact h))
+  · exact fin (trimNotDue_corrupt fs now f (by rw [durations.2.2.2.1]; exact hf)
+      (by rw [durations.2.2.2.2.2.1, durations.2.2.2.2.2.2]; exact hp))
+  · have hnd : trimNotDue fs now = false := by
+      rw [trimNotDue_is_spec fs now t hrec]
+      exact notDueSpec_old_or_future t now (record_is_int64 fs t hrec).1 (by unfold firstWrapped; omega)
+        (by simp only [hour, day, second] at hd; omega)
+    exact fin hnd
+
+example : (trim FS.empty (10 * day)).get trimTxt = some ⟨decimal (10 * day / second).toNat, 10 * day⟩ :=
+  (trim_due_otherwise_corollary FS.empty (10 * day) (by decide) (Or.inl rfl)).2
+
+/-- (ii) In real, unwrapped time — for every record below the wrap region of `time.Unix` (in particular every `t`
+whose nanosecond value fits in an int64) and EVERY `now ≥ 0`, representable as int64 nanoseconds or not: a record a
+day or more in the past, or an hour or more in the future, means due. -/
+theorem trim_due_real_time (fs : FS) (now t : Int) (hn0 : 0 ≤ now) (hrec : lastTrimIs fs t) (hnowrap : t < 2 ^ 63 - 62135596800)
+    (hd : day ≤ now - t * second ∨ now - t * second ≤ -hour) :
+    trim fs now = dueResult fs now ∧ (trim fs now).get trimTxt = some ⟨decimal (now / second).toNat, now⟩ := by
+  have hnd : trimNotDue fs now = false := by
+    rw [trimNotDue_is_spec fs now t hrec]
+    exact notDueSpec_old_or_future t now (record_is_int64 fs t hrec).1 hnowrap (by simp only [hour, day, second] at hd; omega)
+  have := trim_of_due fs now hn0 hnd
+  exact ⟨this, by rw [this, dueResult, FS.get_set_self]⟩
+
+/-- a record whose nanosecond value does not fit (`9223372037·10⁹ > 2^63`) but which `time.Unix` represents exactly. -/
+def exYear2262 : FS := FS.empty.set trimTxt ⟨[57, 50, 50, 51, 51, 55, 50, 48, 51, 55], 0⟩   -- "9223372037"
+
+example : (trim exYear2262 (10 * day)).get trimTxt = some ⟨decimal (10 * day / second).toNat, 10 * day⟩ :=
+  (trim_due_real_time exYear2262 (10 * day) 9223372037 (by decide) ⟨_, FS.get_set_self _ _ _, by decide⟩ (by decide)
+    (Or.inr (by decide))).2
+
+/-- … and in the wrap region itself (`2^63 - 62135596800 ≤ t`) the trim is due whatever `now ≥ 0` is. -/
+theorem trim_due_wrapped (fs : FS) (now t : Int) (hn0 : 0 ≤ now) (hrec : lastTrimIs fs t) (hwrap : 2 ^ 63 - 62135596800 ≤ t) :
+    trim fs now = dueResult fs now ∧ (trim fs now).get trimTxt = some ⟨decimal (now / second).toNat, now⟩ := by
+  have hnd : trimNotDue fs now = false := by
+    rw [trimNotDue_is_spec fs now t hrec]
+    exact notDueSpec_wrapped t now hwrap (record_is_int64 fs t hrec).2 hn0
+  have := trim_of_due fs now hn0 hnd
+  exact ⟨this, by rw [this, dueResult, FS.get_set_self]⟩
+
+example : (trim exMaxRecord (10 * day)).get trimTxt = some ⟨decimal (10 * day / second).toNat, 10 * day⟩ :=
+  (trim_due_wrapped exMaxRecord (10 * day) (2 ^ 63 - 1) (by decide) ⟨_, FS.get_set_self _ _ _, by decide⟩ (by decide)).2
+
+/-- (iii) closed instances around the three edges, evaluated by the kernel (`now = 10 d` or `now = 2^63 - 1` ns; each
+verdict equals what `now.Sub(time.Unix(t, 0))` gives in Go):
+`t = 9223372037` (first `t` with `t·10⁹ > 2^63`): due at day 10 — but NOT due at `now = 2^63 - 1` ns, 0.145 s before
+that record; `t = 18446744074`: `Sub` saturates at `minDuration`, due; the last non-wrapping value: due; the first
+wrapping value and `MaxInt64` (`Sub` saturates at `maxDuration`): due; `MinInt64`: due. -/
+theorem trim_due_edge_examples :
+    notDueSpec 9223372037 (10 * day) = false ∧ notDueSpec 9223372037 (2 ^ 63 - 1) = true ∧
+    notDueSpec 18446744074 (10 * day) = false ∧
+    notDueSpec (2 ^ 63 - 62135596800 - 1) (10 * day) = false ∧ notDueSpec (2 ^ 63 - 62135596800) (10 * day) = false ∧
+    notDueSpec (2 ^ 63 - 1) (10 * day) = false ∧ notDueSpec (2 ^ 63 - 1) (2 ^ 63 - 1) = false ∧
+    notDueSpec (-(2 ^ 63)) (10 * day) = false ∧
+    trimNotDue exYear2262 (2 ^ 63 - 1) = true ∧ trimNotDue exYear2262 (10 * day) = false ∧
+    trimNotDue exMaxRecord (10 * day) = false := by
+  refine ⟨by decide, by decide, by decide, by decide, by decide, by decide, by decide, by decide, ?_, ?_, ?_⟩
+  · rw [trimNotDue_is_spec exYear2262 _ 9223372037 ⟨_, FS.get_set_self _ _ _, by decide⟩]; decide
+  · rw [trimNotDue_is_spec exYear2262 _ 9223372037 ⟨_, FS.get_set_self _ _ _, by decide⟩]; decide
+  · rw [trimNotDue_is_spec exMaxRecord _ (2 ^ 63 - 1) ⟨_, FS.get_set_self _ _ _, by decide⟩]; decide
 
 /-! ### mtimes are refreshed by use -/
 
@@ -396,5 +559,70 @@ example : isEntryPath [82, 69, 65, 68, 77, 69] = false ∧
 
 example : (trim (FS.empty.set [82, 69, 65, 68, 77, 69] ⟨[1], 0⟩) (10 * day)).get [82, 69, 65, 68, 77, 69] = some ⟨[1], 0⟩ := by
   rw [trim_frame _ _ (by decide) _ (by decide) (by decide), FS.get_set_self]
+
+/-! ### the four boundaries, by name -/
+
+/-- the entry file `ab/x-a`. -/
+def bEntry : Bytes := [97, 98, 47, 120, 45, 97]
+
+/-- a one-entry cache: `ab/x-a` with mtime `m`, last trim recorded at `777600` s = day 9. -/
+def bCache (m : Int) : FS := (FS.empty.set bEntry ⟨[1], m⟩).set trimTxt ⟨[55, 55, 55, 54, 48, 48], 0⟩   -- "777600"
+
+theorem bCache_record (m : Int) : lastTrimIs (bCache m) 777600 := ⟨_, FS.get_set_self _ _ _, by decide⟩
+
+theorem bCache_entry (m : Int) : (bCache m).get bEntry = some ⟨[1], m⟩ := by
+  rw [bCache, FS.get_set_ne _ _ _ _ (by decide), FS.get_set_self]
+
+/-- `>` versus `≥`, pinned with the regenerated constants on a concrete one-entry cache (record = day 9):
+* the constants are 24 h, 1 h, 5 d, and the cutoff is `now - (5 d + 1 h)`;
+* (a) `d = trimInterval`: due — (b) `d = trimInterval - 1 ns`: not due, Trim changes nothing (whatever the entry's age);
+* (c) the record exactly `mtimeInterval` in the future: due — (d) 1 ns less: not due, nothing changes;
+* (e) at a due trim, an entry whose mtime is exactly the cutoff is kept — (f) 1 ns older: removed. -/
+theorem trim_boundaries_exact :
+    (Gen.Cache.trimInterval = 24 * hour ∧ Gen.Cache.mtimeInterval = 1 * hour ∧ Gen.Cache.trimLimit = 5 * day ∧
+      ∀ now, Gen.Cache.cutoff now = now - (5 * day + 1 * hour)) ∧
+    (∀ m, trimNotDue (bCache m) (9 * day + Gen.Cache.trimInterval) = false) ∧
+    (∀ m, trimNotDue (bCache m) (9 * day + Gen.Cache.trimInterval - 1) = true ∧
+      trim (bCache m) (9 * day + Gen.Cache.trimInterval - 1) = bCache m) ∧
+    (∀ m, trimNotDue (bCache m) (9 * day - Gen.Cache.mtimeInterval) = false) ∧
+    (∀ m, trimNotDue (bCache m) (9 * day - Gen.Cache.mtimeInterval + 1) = true ∧
+      trim (bCache m) (9 * day - Gen.Cache.mtimeInterval + 1) = bCache m) ∧
+    (trim (bCache (Gen.Cache.cutoff (10 * day))) (10 * day)).get bEntry = some ⟨[1], Gen.Cache.cutoff (10 * day)⟩ ∧
+    (trim (bCache (Gen.Cache.cutoff (10 * day) - 1)) (10 * day)).get bEntry = none := by
+  have hT : Gen.Cache.trimInterval = day := durations.2.1
+  have hM : Gen.Cache.mtimeInterval = hour := durations.1
+  have all := fun (m now : Int) (h0 : 0 ≤ now) (h1 : now < 2 ^ 63) =>
+    trim_due_all_records (bCache m) now 777600 h0 h1 (bCache_record m)
+  have hdue10 : ∀ m, trimNotDue (bCache m) (10 * day) = false := by
+    intro m
+    rw [Bool.eq_false_iff, Ne, (all m (10 * day) (by decide) (by decide)).1]
+    decide
+  refine ⟨⟨by rw [hT]; decide, by rw [hM]; decide, durations.2.2.1, fun now => by rw [cutoff_eq]; omega⟩, ?_, ?_, ?_, ?_, ?_, ?_⟩
+  · intro m
+    rw [hT, Bool.eq_false_iff, Ne, (all m (9 * day + day) (by decide) (by decide)).1]
+    decide
+  · intro m
+    rw [hT]
+    have hc : -hour < 9 * day + day - 1 - 777600 * second ∧ 9 * day + day - 1 - 777600 * second < day := by decide
+    exact ⟨(all m _ (by decide) (by decide)).1.mpr hc, (all m _ (by decide) (by decide)).2.1 hc⟩
+  · intro m
+    rw [hM, Bool.eq_false_iff, Ne, (all m (9 * day - hour) (by decide) (by decide)).1]
+    decide
+  · intro m
+    rw [hM]
+    have hc : -hour < 9 * day - hour + 1 - 777600 * second ∧ 9 * day - hour + 1 - 777600 * second < day := by decide
+    exact ⟨(all m _ (by decide) (by decide)).1.mpr hc, (all m _ (by decide) (by decide)).2.1 hc⟩
+  · exact trim_keeps_recent _ _ (by decide) bEntry _ (by decide) (bCache_entry _) (by rw [cutoff_eq]; exact Int.le_refl _)
+  · exact trim_removes_stale _ _ (by decide) (hdue10 _) bEntry _ (by decide) (bCache_entry _)
+      (by rw [cutoff_eq]; show 10 * day - 5 * day - hour - 1 < 10 * day - 5 * day - hour; omega)
+
+/-- the boundary facts are about different verdicts on neighbouring instants (non-vacuity of the pairs). -/
+example : trimNotDue (bCache 0) (10 * day) ≠ trimNotDue (bCache 0) (10 * day - 1) := by
+  have h := trim_boundaries_exact
+  have hT : Gen.Cache.trimInterval = day := durations.2.1
+  have e : (9 * day + day : Int) = 10 * day := by decide
+  rw [hT, e] at h
+  rw [h.2.1 0, (h.2.2.1 0).1]
+  decide
 
 end GIV.C13
